@@ -126,10 +126,11 @@ structure Shown (inp : List UInt8) (G : Prop) (st : State) (r : Reader) (x : FqR
   view : viewRec r.br.buf r.bp = some (recOf x)
   line_eq : x.line = r.line
   byte_eq : x.byte = r.byte
-  p01 : r.bp.pos0 ≤ r.bp.pos1 + 1
+  p01 : r.bp.pos0 ≤ r.bp.pos1
   p1l : r.bp.pos1 ≤ r.br.buf.length
   rest : (r.state = st ∧ r.incompletePos = none ∧ r.bp.pos1 + 1 ≤ r.br.buf.length ∧
-      its' = itemsAt inp (r.byte + (r.bp.pos1 + 1 - r.bp.pos0)) (r.line + 4)) ∨
+      its' = itemsAt inp (r.byte + (r.bp.pos1 + 1 - r.bp.pos0)) (r.line + 4) ∧
+      nl4 (inp.drop r.byte) = some (r.bp.pos1 + 1 - r.bp.pos0)) ∨
     (r.state = .finished ∧ its' = [])
 
 /-- the result of looking for the next record from a reader in state `st`: S's first item -/
@@ -205,17 +206,34 @@ theorem viewRec_of_views {buf : List UInt8} {bp : BufPos} {x : FqRec}
     (h3 : qual buf bp = some x.qual) : viewRec buf bp = some (recOf x) := by
   simp only [viewRec, h1, h2, h3, recOf]
 
-/-- all four lines are in the buffer: `validate` decides as S does -/
-theorem complete_found (inp : List UInt8) (G : Prop) (r : Reader) (hb : Base inp G r)
+/-! ## the buffer reader is left alone -/
+
+theorem validate_br (r : Reader) : (validate r).1.br = r.br := by
+  unfold validate
+  repeat' split
+  all_goals first | rfl | (simp only; split <;> rfl)
+
+theorem validated_br (r : Reader) : (validated r).1.br = r.br := by
+  have := validate_br r
+  unfold validated
+  revert this
+  generalize validate r = v
+  rcases v with ⟨r', (_ | _ | _ | _)⟩ <;> exact id
+
+/-- all four lines are in the buffer: `validate` decides as S does (sharp form) -/
+theorem complete_found2 (inp : List UInt8) (G : Prop) (r : Reader) (hb : Base inp G r)
     (he : Eof inp r) (hip : r.incompletePos = none) (hf : Found4 r.br.buf r.bp) :
-    Found inp G r.state (itemsAt inp r.byte r.line) (validated r) := by
+    (∃ x its', itemsAt inp r.byte r.line = .record x :: its' ∧ validated r = (r, .ok true) ∧
+      Shown inp G r.state r x its') ∨
+    (∃ e b l, itemsAt inp r.byte r.line = [.err e b l] ∧
+      validated r = ({ r with state := .finished }, .err (specErr e))) := by
   have hrec := hf.rec4
   have hsplit := hf.split (inp.drop r.br.src.cursor)
   have hlens := hf.lens
   have hv := validate_spec r hrec
   have h1 : r.bp.pos1 + 1 ≤ r.br.buf.length := (nl_some hf.2.2.2).2.1
   have hne := splitLF_ne_nil (r.br.buf.drop (r.bp.pos1 + 1) ++ inp.drop r.br.src.cursor)
-  have hp01 : r.bp.pos0 ≤ r.bp.pos1 + 1 := by
+  have hp01 : r.bp.pos0 ≤ r.bp.pos1 := by
     have := hrec.h1; have := hrec.h2; have := hrec.h3; have := hrec.h4
     omega
   have hnext : inp.drop (r.byte + (r.bp.pos1 + 1 - r.bp.pos0)) =
@@ -230,17 +248,39 @@ theorem complete_found (inp : List UInt8) (G : Prop) (r : Reader) (hb : Base inp
   cases g with
   | record x =>
     obtain ⟨v1, v2, v3, v4, v5, v6⟩ := hv
-    simp only [validated, v1]
-    refine Or.inl ⟨rfl, x, _, rfl, ?_⟩
-    dsimp only
-    refine ⟨hb.toWin, he, viewRec_of_views v2 v3 v4, v6, v5, hp01, by omega, Or.inl ⟨rfl, hip, h1, ?_⟩⟩
-    unfold itemsAt
-    rw [hnext]
-    congr 1
-    omega
+    refine Or.inl ⟨x, _, rfl, by simp only [validated, v1], ?_⟩
+    refine ⟨hb.toWin, he, viewRec_of_views v2 v3 v4, v6, v5, hp01, by omega,
+      Or.inl ⟨rfl, hip, h1, ?_, ?_⟩⟩
+    · unfold itemsAt
+      rw [hnext]
+      congr 1
+      omega
+    · obtain ⟨f1, f2, f3, f4⟩ := hf
+      have g1 := nl_some f1
+      have g2 := nl_some f2
+      have g3 := nl_some f3
+      have d1 := nl_append (inp.drop r.br.src.cursor) (nl_drop_some r.bp.pos0 (Nat.le_refl _) f1)
+      have d2 := nl_append (inp.drop r.br.src.cursor)
+        (nl_drop_some r.bp.pos0 (show r.bp.pos0 ≤ r.bp.seq by omega) f2)
+      have d3 := nl_append (inp.drop r.br.src.cursor)
+        (nl_drop_some r.bp.pos0 (show r.bp.pos0 ≤ r.bp.sep by omega) f3)
+      have d4 := nl_append (inp.drop r.br.src.cursor)
+        (nl_drop_some r.bp.pos0 (show r.bp.pos0 ≤ r.bp.qual by omega) f4)
+      rw [Nat.sub_self] at d1
+      rw [hb.win]
+      simp only [nl4, d1, d2, d3, d4, Option.bind_some]
   | err e b l =>
     obtain ⟨v1, v2, v3⟩ := hv
-    simp only [validated, v1]
+    exact Or.inr ⟨e, b, l, rfl, by simp only [validated, v1]⟩
+
+/-- all four lines are in the buffer: `validate` decides as S does -/
+theorem complete_found (inp : List UInt8) (G : Prop) (r : Reader) (hb : Base inp G r)
+    (he : Eof inp r) (hip : r.incompletePos = none) (hf : Found4 r.br.buf r.bp) :
+    Found inp G r.state (itemsAt inp r.byte r.line) (validated r) := by
+  rcases complete_found2 inp G r hb he hip hf with ⟨x, its', hi, hv, hs⟩ | ⟨e, b, l, hi, hv⟩
+  · rw [hi, hv]
+    exact Or.inl ⟨rfl, x, its', rfl, hs⟩
+  · rw [hi, hv]
     exact Or.inr (Or.inr (Or.inl ⟨e, b, l, rfl, rfl, rfl, hb.toWin.set_state _, he⟩))
 
 /-! ## end of input -/
@@ -391,5 +431,61 @@ theorem eof_few_found (inp : List UInt8) (G : Prop) (st : State) (r : Reader) (h
   · rw [if_neg hbl, if_neg hbl]
     refine Or.inr (Or.inr (Or.inl ⟨_, _, _, ?_, rfl, hfin⟩))
     simp only [specErr, hepv]
+
+theorem checkEndQ_br (r : Reader) : (checkEndQ r).1.br = r.br := by
+  have := validate_br r
+  unfold checkEndQ
+  revert this
+  generalize validate r = v
+  rcases v with ⟨r', (_ | _ | _ | _)⟩ <;> intro h
+  · simp only
+    repeat' split
+    all_goals exact h
+  all_goals exact h
+
+theorem checkEnd_br (r : Reader) (ip : RecordPos) : (checkEnd r ip).1.br = r.br := by
+  by_cases hq : ip = .qual
+  · subst hq
+    rw [checkEnd_qual, checkEndQ_br]
+  · simp only [checkEnd, hq, if_false]
+    repeat' split
+    all_goals rfl
+
+/-! ## the growth log is left alone -/
+
+theorem validate_log (r : Reader) : (validate r).1.log = r.log := by
+  unfold validate
+  repeat' split
+  all_goals first | rfl | (simp only; split <;> rfl)
+
+theorem validate_ne_bl (r : Reader) : (validate r).2 ≠ .err .bufferLimit := by
+  unfold validate
+  repeat' split
+  all_goals first | (intro h; cases h) | (simp only; split <;> (intro h; cases h))
+
+theorem checkEndQ_log (r : Reader) :
+    (checkEndQ r).1.log = r.log ∧ (checkEndQ r).2 ≠ .err .bufferLimit := by
+  have h1 := validate_log r
+  have h2 := validate_ne_bl r
+  unfold checkEndQ
+  revert h1 h2
+  generalize validate r = v
+  rcases v with ⟨r', (_ | e | _ | _)⟩ <;> intro h1 h2
+  · simp only
+    repeat' split
+    all_goals exact ⟨h1, by intro h; cases h⟩
+  · exact ⟨h1, fun h => h2 (by simpa using h)⟩
+  · exact ⟨h1, by intro h; cases h⟩
+  · exact ⟨h1, by intro h; cases h⟩
+
+theorem checkEnd_log (r : Reader) (ip : RecordPos) :
+    (checkEnd r ip).1.log = r.log ∧ (checkEnd r ip).2 ≠ .err .bufferLimit := by
+  by_cases hq : ip = .qual
+  · subst hq
+    rw [checkEnd_qual]
+    exact checkEndQ_log _
+  · simp only [checkEnd, hq, if_false]
+    repeat' split
+    all_goals exact ⟨rfl, by intro h; cases h⟩
 
 end SeqIo.Fastq
